@@ -12,6 +12,7 @@ import (
 	"os"
 	"os/exec"
 	"runtime/debug"
+	"sort"
 	"strconv"
 	"sync"
 	"time"
@@ -40,6 +41,53 @@ func main() {
 			exec.Command("rsync", "-a", "--delete", ndir+"/", mode+"/").Run()
 			os.RemoveAll(ndir)
 		}
+		return
+	}
+	if prop == "ALL" && mode == "dump" {
+		// all properties on one load of the tree (used by the self-test on scratch copies)
+		ndir, notes, cleanup, nerr := core.Normalize(*repo, *verif+"/tables/functions.txt")
+		if nerr != nil {
+			fmt.Printf("C00\tundecided   LOAD load-error  @-  %v\n", nerr)
+			cleanup()
+			return
+		}
+		cfg, _ := core.ConfigByName("amd64")
+		p, err := core.Load(ndir, cfg)
+		if err != nil {
+			for i := 1; i <= 20; i++ {
+				fmt.Printf("C%02d\tundecided   LOAD load-error  @-  amd64: %v\n", i, err)
+			}
+			cleanup()
+			return
+		}
+		_ = notes
+		var ids []string
+		for id := range rules.Props {
+			ids = append(ids, id)
+		}
+		sort.Strings(ids)
+		for _, id := range ids {
+			func() {
+				defer func() {
+					if e := recover(); e != nil {
+						fmt.Printf("%s\tundecided   LOAD load-error  @-  PANIC in checker: %v\n", id, e)
+					}
+				}()
+				run := core.NewRun(p, id, "quick")
+				ctx := &rules.Ctx{Run: run, P: p, Verif: *verif, Tier: "quick"}
+				for _, rule := range rules.Props[id].Rules {
+					rule(ctx)
+				}
+				res := run.Result()
+				for _, o := range res.Obs {
+					fmt.Printf("%s\t%-11s %-4s %s  @%s  %s %v\n", id, o.Status, o.Rule, o.Construct, o.Pos, o.Detail, o.Facts)
+				}
+				for _, e := range res.LoadErrors {
+					fmt.Printf("%s\tundecided   LOAD load-error  @-  %s\n", id, e)
+				}
+			}()
+		}
+		cleanup()
 		return
 	}
 	if prop == "inventory" {
